@@ -163,7 +163,7 @@ pub fn test_bytes(ix: &CorpusIndex, c: &ByteCase, stats: &Stats, strict: bool) -
 }
 
 pub fn stages(ctx: &Ctx, strict: bool) {
-    ctx.prop_stage("generated-graphs", Isolation::Procs, ctx.n(400_000, 4_000_000), colr_strategy, |c, s| test_generated(c, s, strict));
+    ctx.prop_stage("generated-graphs", Isolation::Procs, ctx.n(1_000_000, 10_000_000), colr_strategy, |c, s| test_generated(c, s, strict));
     let ix = colr_corpus();
     // corpus COLR fonts unmutated, then COLR/CPAL/glyf table havoc
     let plain: Vec<ByteCase> = ix.fonts.iter().map(|f| ByteCase { m: MutCase { font: f.name.clone(), table: "FILE".into(), edits: vec![] }, coords: vec![], script: vec![] }).collect();
